@@ -401,11 +401,11 @@ Theorem c11_fai_bounds : forall f recs e r, index_file f = (recs, e) -> In r rec
 Proof. exact fai_bounds. Qed.
 Print Assumptions c11_fai_bounds.
 
-(* ... so for files shorter than 2^64 bytes whose record names are valid UTF-8 the index
-   written as a .fai file reads back equal (names that are not UTF-8 do not: C17's finding
-   fai-non-utf8-name) ... *)
+(* ... so for files shorter than 2^64 bytes the index written as a .fai file reads back equal,
+   whether or not the record names are valid UTF-8 (C17's finding fai-non-utf8-name is repaired:
+   `fix:` commit 24986d3) ... *)
 Theorem c11_index_via_file : forall f,
-  len f < 2 ^ 64 -> utf8_names (fst (index_file f)) ->
+  len f < 2 ^ 64 ->
   index_via_file f = Some (fst (index_file f)).
 Proof. exact index_via_file_same. Qed.
 Print Assumptions c11_index_via_file.
@@ -413,7 +413,7 @@ Print Assumptions c11_index_via_file.
 (* ... and the index built by the indexer, written, read back, answers every region query (name
    lookup included) with exactly the bases of the naive parse *)
 Theorem c11_via_file_query_exact : forall f recs err name r s e,
-  index_file f = (recs, err) -> len f < 2 ^ 64 -> utf8_names recs ->
+  index_file f = (recs, err) -> len f < 2 ^ 64 ->
   find_record recs name = Some r ->
   exists body, record_lines f r body /\
     let B := naive_bases body in
